@@ -232,6 +232,17 @@ def run(idx: ProgramIndex, rep: Report, tier: str):
                     yield from data_nodes(ch)
 
     def side(e) -> str:
+        # the *size* of an operator decides its side: a constant diagonal is as large as its diag_shape says (its values may be
+        # broadcast against anything); batch-only operations (expand, +, to) keep the side of the receiver
+        if isinstance(e, ast.Call):
+            ds = [k.value for k in e.keywords if k.arg == "diag_shape"]
+            if ds:
+                return side(ds[0])
+            if isinstance(e.func, ast.Attribute) and e.func.attr in ("expand", "to", "add_jitter", "type", "double", "float", "unsqueeze", "repeat", "add", "__add__"):
+                return side(e.func.value)
+        if isinstance(e, ast.BinOp) and isinstance(e.op, ast.Add):
+            l_, r_ = side(e.left), side(e.right)
+            return l_ if l_ == r_ or r_ == "?" else (r_ if l_ == "?" else "?")
         attrs = {x.attr for x in data_nodes(e) if isinstance(x, ast.Attribute)}
         names = {x.id for x in data_nodes(e) if isinstance(x, ast.Name)}
         task = bool(attrs & TASK_ATTRS)
